@@ -78,6 +78,14 @@ CHECKS = [
   "explicit-state BFS (depth 3; thorough 4-5) over histories of {write(file, contents T1/T2/broken), remove, rename to/from another program name / a non-.mtail name / a dot-name, mkdir of a matching name} on a real program directory holding a.mtail, b.mtail, .h.mtail, notes.txt, sub/c.mtail, each step followed by LoadAllPrograms and a probe line on the real Runtime under the controlled scheduler; per transition: running set and the contents each program was compiled from equal the model, the probe line moves exactly the marker counter of each running version, prog_loads_total / prog_unloads_total move by the model's event counts",
   "LoadAllPrograms is called directly (as the SIGHUP handler does); states de-duplicated on the model plus a reflective dump of the Runtime object graph",
   "explicit-state model checking of the implementation over directory histories (multi-process BFS, replay from the initial state, map reference model)", "§3 C26"),
+ ("C19", "gosim", "exploration",
+  "all schedules with <=1 deviation (thorough: 2 for single-program scenarios) of the whole one-shot pipeline wired by mtail.New + Run (tailer, file streams, runtime fan-out, VMs, exporter; 8 instrumented packages) on real files, for program sets of size 1-2 (thorough: all, plus size 3) from {line counter, counter by getfilename(), per-file last-number gauge, a program that stops, a program that raises runtime errors} x file sets of size 1-2 (thorough 3) from {empty, 1 line, 2 lines, unterminated last line, blank line} (quick: a fixed fifth of the grid): Run returns, no thread is left blocked, lines_total = number of lines, final store = reference",
+  "scheduling points are synchronisation operations; file reads are synchronous steps; program sets chosen so the expected store is independent of the file interleaving; the prometheus registry's DescribeByCollect goroutine takes the free store lock directly",
+  "stateless model checking of the implementation under a controlled scheduler (iterative deviation bounding, DFS, replay-confirmed counterexamples)", "§3 C19"),
+ ("C25", "hsx", "model_checking",
+  "all applicable histories of length <=4 (thorough 5) over {append integer / non-integer line to log a or b, append a fragment, write p.mtail as ok / runtime-error-raising / non-compiling / unregistrable version and reload, remove p.mtail and reload, poll} on the whole pipeline wired by mtail.New in tailing mode under the controlled scheduler, with and without a second program; after every step lines_total, log_lines_total per log, log_count, prog_runtime_errors_total, prog_loads_total, prog_unloads_total, prog_load_errors_total per program moved by exactly the number of such events in the history",
+  "default schedule with quiescence barriers; counters read as deltas; reload = LoadAllPrograms called directly",
+  "explicit-state exploration of the implementation over operation histories (multi-process BFS, replay from the initial state, event-count reference model)", "§3 C25"),
 ]
 
 ENGINES = [
